@@ -7,6 +7,7 @@
 package c15
 
 import (
+	"context"
 	"fmt"
 	"sort"
 	"strings"
@@ -108,8 +109,13 @@ type parsed struct {
 
 var last parsed
 
-func parse(p *pj.Program, mi int) *parsed {
-	key := fmt.Sprintf("%s|%d", p.Name, mi)
+const primerSource = "syntax = \"proto3\";\npackage primer;\nmessage PrimerOnly {\n  int32 x = 1;\n}\nservice PrimerSvc {\n  rpc P(PrimerOnly) returns (PrimerOnly);\n}\n"
+
+// parse: reused=false hands the parser a fresh includes map; reused=true hands it the map of an EARLIER parse of
+// another text under the same main path (an application that keeps one map for all its loads): the descriptor must
+// mirror the text of THIS call either way.
+func parse(p *pj.Program, mi int, reused bool) *parsed {
+	key := fmt.Sprintf("%s|%d|%v", p.Name, mi, reused)
 	if last.key == key {
 		return &last
 	}
@@ -120,7 +126,22 @@ func parse(p *pj.Program, mi int) *parsed {
 	}
 	last.ref = ref
 	last.pi = core.Catch(func() {
-		last.svc, last.err = pj.Dynamicgo(p, dproto.Options{ParseServiceMode: modes[mi].m})
+		opts := dproto.Options{ParseServiceMode: modes[mi].m}
+		if !reused {
+			last.svc, last.err = pj.Dynamicgo(p, opts)
+			return
+		}
+		inc := map[string]string{}
+		if _, perr := opts.NewDesccriptorFromContent(context.Background(), p.Main, primerSource, inc); perr != nil {
+			panic("harness: the primer program does not parse: " + perr.Error())
+		}
+		src := p.Sources()
+		for k, v := range src {
+			if k != p.Main {
+				inc[k] = v
+			}
+		}
+		last.svc, last.err = opts.NewDesccriptorFromContent(context.Background(), p.Main, src[p.Main], inc)
 	})
 	return &last
 }
@@ -137,7 +158,7 @@ func (check) Enumerate(tier string, seed int64, gi int, yield func(core.Case) bo
 					Desc: func() interface{} { return caseDesc{pr.p.Name, modes[mi].name, aspect, pr.p.SourceDump()} },
 					Run: func() core.Result {
 						r := core.Result{Class: "ok", Key: pr.p.Name + "|" + modes[mi].name + "|" + aspect}
-						ps := parse(pr.p, mi)
+						ps := parse(pr.p, mi, aspect != "lookups")
 						if ps.pi != nil {
 							r.Class = "parse-panic"
 							r.Add("parse|"+pr.family+"|panic@"+ps.pi.Site+":"+core.PanicClass(ps.pi.Val), "parsing %s panics: %s\n%s", pr.p.Name, ps.pi.Val, ps.pi.Stack)
